@@ -60,6 +60,7 @@ pub fn probes_into(o: &mut crate::props::RunOut, p: &Probes, t: &Trace) {
     o.count("probe.queue_len_32_hit", (p.max_queue >= 32) as u64);
     o.count("probe.event_arrived_with_full_queue", p.queue_full_on_event);
     o.count("probe.states_at_64", (p.max_states >= 64) as u64);
+    o.count("probe.more_than_10_held_layers", (p.max_held_layers > 10) as u64);
     o.count("probe.extra_waiting_ge1", (p.max_extra_waiting >= 1) as u64);
     o.count("probe.extra_waiting_eq8", (p.max_extra_waiting >= 8) as u64);
     o.count("probe.oneshot_keys_ge2", (p.max_oneshot_keys >= 2) as u64);
